@@ -22,7 +22,8 @@
 (*                                                                          *)
 (* Dev is the set of deviation switches that are ON ("as-is" behaviour of   *)
 (* the pinned code where it is known to be wrong): F1 = identity points     *)
-(* accepted in proofs.                                                      *)
+(* accepted in proofs; F12 = blind_proof_verify accepts a signer-message    *)
+(* index >= L (a committed message presented as a signer message).          *)
 (***************************************************************************)
 EXTENDS BBS, TLC
 
@@ -58,9 +59,10 @@ SeqSet(s) == {s[j] : j \in 1 .. Len(s)}
 (*  sig    [kind, key, s, i, hdr, msgs, cm, ups, mut]                       *)
 (*           i = "plain" (sign) | "blind" (blind_sign); cm = commitment     *)
 (*           handle or 0; ups = <<[s, idx, old, new], ..>> update history;  *)
-(*           mut \subseteq {"A", "e"} = fields replaced by other values     *)
-(*  commit [kind, s, cms, mut, dl]   mut \subseteq {"C", 1, 2, ..} (scalar   *)
-(*           positions), dl \in {-1, 0, 1} whole scalars removed / appended *)
+(*           mut = set of tampered fields: 100 + j = j-th point, j = j-th   *)
+(*           scalar of the encoding (signature: 101 = A, 1 = e)            *)
+(*  commit [kind, s, cms, mut, dl]   mut as above (101 = C),                *)
+(*           dl \in {-1, 0, 1} whole scalars removed / appended              *)
 (*  proof  [kind, sig, key, s, i, hdr, ph, msgs, cms, bl, D, mut, dl]       *)
 (*           msgs/cms/bl/D = what the prover passed (D = disclosed indexes  *)
 (*           into msgs \o <<blind>> \o cms for the blind interface)         *)
@@ -87,7 +89,7 @@ CommitVal(k, os, h) ==
   LET o  == os[h]
       sc == CommitScalars(k, os, h)
       n  == Len(sc)
-  IN  [C    |-> IF "C" \in o.mut THEN MutLeaf(k, h, 60) ELSE CommitRaw(k, os, h).C,
+  IN  [C    |-> IF 101 \in o.mut THEN MutLeaf(k, h, 60) ELSE CommitRaw(k, os, h).C,
        scap |-> sc[1], mcap |-> SubSeq(sc, 2, n - 1), c |-> sc[n]]
 
 BlindOf(k, os, bl) ==        \* the secret_prover_blind argument of a call
@@ -116,8 +118,8 @@ SigVal(k, os, h) ==
       ske  == Ad(sk, base.e)
       B    == ApplyUps(k, Mu(base.A, ske), o.ups, 1)
   IN  [ok |-> base.ok,
-       A  |-> IF "A" \in o.mut THEN MutLeaf(k, h, 1) ELSE Mu(B, Inv(ske)),
-       e  |-> IF "e" \in o.mut THEN MutLeaf(k, h, 2) ELSE base.e]
+       A  |-> IF 101 \in o.mut THEN MutLeaf(k, h, 1) ELSE Mu(B, Inv(ske)),
+       e  |-> IF 1 \in o.mut THEN MutLeaf(k, h, 2) ELSE base.e]
 
 \* the message-scalar vector and generator list a prover / verifier uses
 ProverVec(k, os, o) ==
@@ -135,7 +137,6 @@ ProofRaw(k, os, h) ==
   IN  CoreProofGen(k, Api(o.s, o.i), PkOf(k, o.key), SigVal(k, os, o.sig), ProverGens(k, o),
                    o.hdr, o.ph, ms, o.D, Draws(k, h, 5 + U))
 
-ProofPoint(k, os, h, f, v) == IF f \in os[h].mut THEN MutLeaf(k, h, 80) ELSE v
 ProofVal(k, os, h) ==
   LET o  == os[h]
       p  == ProofRaw(k, os, h)
@@ -145,9 +146,9 @@ ProofVal(k, os, h) ==
             ELSE IF o.dl = 1 THEN Append(s1, MutLeaf(k, h, 50))
             ELSE SubSeq(s1, 1, Len(s1) - 1)
       n  == Len(sc)
-  IN  [Abar |-> IF "Abar" \in o.mut THEN MutLeaf(k, h, 61) ELSE p.Abar,
-       Bbar |-> IF "Bbar" \in o.mut THEN MutLeaf(k, h, 62) ELSE p.Bbar,
-       D    |-> IF "D" \in o.mut THEN MutLeaf(k, h, 63) ELSE p.D,
+  IN  [Abar |-> IF 101 \in o.mut THEN MutLeaf(k, h, 61) ELSE p.Abar,
+       Bbar |-> IF 102 \in o.mut THEN MutLeaf(k, h, 62) ELSE p.Bbar,
+       D    |-> IF 103 \in o.mut THEN MutLeaf(k, h, 63) ELSE p.D,
        ecap |-> sc[1], r1cap |-> sc[2], r3cap |-> sc[3], mcap |-> SubSeq(sc, 4, n - 1), c |-> sc[n]]
 ProofDecodable(os, h) ==
   LET o == os[h]
@@ -411,7 +412,8 @@ BlindProofVerify(h, key, s, hdr, ph, Lraw, dmsgs, dcmsgs, didx, dcidx) ==
          dec == objs[h].kind = "craft" \/ ProofDecodable(objs, h)
          mech == /\ dec
                  /\ Len(dm) = Len(ix)
-                 /\ Cardinality(SeqSet(ix)) = Len(ix) \/ TRUE
+                 \* F12: the pinned code does not require signer indexes to be below L
+                 /\ ("F12" \in Dev \/ \A j \in 1 .. Len(ix1) : ix1[j] < L)
                  /\ AllS(LAMBDA k :
                       LET p   == AnyProofVal(k, objs, h)
                           tot == Len(p.mcap) + Len(ix)
@@ -419,6 +421,8 @@ BlindProofVerify(h, key, s, hdr, ph, Lraw, dmsgs, dcmsgs, didx, dcidx) ==
                           /\ CoreProofVerify(k, a, PkOf(k, key), p, BlindGens(k, s, L, tot - 1 - L), CanonO(hdr), CanonO(ph),
                                              [j \in 1 .. Len(ix) |-> << ix[j], MsgSc(k, a, dm[j]) >>], IdentRule))
          prov == /\ Len(dm) = Len(ix)
+                 /\ Len(CanonV(dmsgs)) = Len(ix1)
+                 /\ \A j \in 1 .. Len(ix1) : ix1[j] < L
                  /\ \A j1, j2 \in 1 .. Len(ix) : j1 < j2 => ix[j1] < ix[j2]
                  /\ ProofGoodFor(objs, h, key, s, "blind", CanonO(hdr), CanonO(ph),
                                  [j \in 1 .. Len(ix) |-> << ix[j], dm[j] >>], L)
